@@ -414,6 +414,40 @@ struct Tx {
 }
 
 fn timestamp_models(v: &mut Vec<Model>) {
+    // two rewinds of the same index by different workers (a failed validation of tx 0 rewinds to 1,
+    // so does a conflicted execution of tx 0's retry): the rewind bound of the index may only grow.
+    // Each rewinder draws a logical timestamp first; the rewind's own timestamp is newer than that,
+    // so once both have returned the bound must be newer than both witnesses.
+    v.push(Model {
+        id: "c15-timestamps/two-rewinders-same-index".into(),
+        property: "C15",
+        seq: false,
+        threads: 3,
+        describe: "two workers rewind validation to the same index concurrently; afterwards the index's rewind bound is newer than a timestamp each of them drew before rewinding, and the cursor is at or below the index".into(),
+        run: Box::new(|| {
+            let ctx = Arc::new(SchedulerContext::new(3));
+            for i in 0..3 {
+                ctx.executed(i);
+            }
+            while ctx.next_validation_idx(3).is_some() {}
+            let hs: Vec<_> = (0..2)
+                .map(|_| {
+                    let ctx = ctx.clone();
+                    thread::spawn(move || {
+                        let witness = ctx.logical_timestamp();
+                        ctx.rewind_validation_to(1);
+                        witness
+                    })
+                })
+                .collect();
+            let ws: Vec<usize> = hs.into_iter().map(|h| h.join().unwrap()).collect();
+            let bound = ctx.lower_timestamp(1);
+            for w in ws {
+                assert!(bound > w, "rewind bound {bound} of index 1 is not newer than the timestamp {w} drawn before one of its rewinds");
+            }
+            assert!(ctx.validation_idx() <= 1);
+        }),
+    });
     for revalidators in [1usize, 2] {
         v.push(Model {
             id: format!("c15-timestamps/revalidators{revalidators}"),
